@@ -85,24 +85,41 @@ class Obligation:
             cache[B] = to_smt2(exp + theory_axioms(exp))
         return cache[B]
 
-    def stub(self):
-        """picklable form (no z3 objects) for obligations generated in a worker process"""
-        exps = {}
+    def stub(self, deep=True):
+        """picklable form (no z3 objects) for obligations generated in a worker process
+        (deep: also ship the larger bounded expansions of a witness obligation)"""
+        exps, witness = {}, None
         if self.expect == "sat":
-            for B in (2, 3, 4):     # witnesses are searched on bounded expansions; larger bounds only while they stay small
-                try:
-                    q = self.smt2_expanded(B)
-                except Exception:
-                    break
-                if B > 2 and len(q) > 1_500_000:
-                    break
-                exps[B] = q
-        return dict(id=self.id, kind=self.kind, expect=self.expect, meta=self.meta, smt2=self.smt2(), smt2_b=exps)
+            # witnesses (reachability covers, canaries) are searched right here, in the generating process, on bounded
+            # expansions of growing size: a `sat` there is a genuine `sat`; only the outcome travels to the main process
+            import time as _t
+            t0 = _t.time()
+            try:
+                sol = z3.Solver()
+                sol.set("timeout", 1500)
+                sol.from_string(self.smt2_expanded(2))
+                r = str(sol.check())
+            except Exception:
+                r = "error"
+            if r == "sat":
+                witness = dict(B=2, time_s=round(_t.time() - t0, 3))
+            else:
+                # not found at once: ship the expansions, the main process searches them in parallel with larger budgets
+                for B in ((2, 3, 4) if deep else (2,)):
+                    try:
+                        q = self.smt2_expanded(B)
+                    except Exception:
+                        break
+                    if B > 2 and len(q) > 1_500_000:
+                        break
+                    exps[B] = q
+        return dict(id=self.id, kind=self.kind, expect=self.expect, meta=self.meta, smt2=self.smt2(), smt2_b=exps, witness=witness)
 
     @classmethod
     def from_stub(cls, d, regen):
         o = cls(d["id"], d["kind"], [], expect=d["expect"], meta=d["meta"])
         o._smt2, o._smt2_b, o.regen = d["smt2"], dict(d["smt2_b"]), regen
+        o.witness = d.get("witness")
         return o
 
     def materialise(self):
